@@ -602,3 +602,51 @@ def replay_numeric(args, model):
     b = w.get('better', 0.0)
     return dict(confirmed=bool(not np.isfinite(r) or o(r) > o(b) + 1e-6 * (1 + abs(o(b)))),
                 detail=f'compiled prox={r} obj={o(r)}; better point {b} obj={o(b)}', inputs=w)
+
+
+def bst_positive_task(T, d):
+    """prox_funcs.BST(x, u, positive=True) against its documented spec function (d entries, all sign patterns):
+    on S = {j : x_j > 0}:  max(1 - u / ||x_S||, 0) x_S ; zero elsewhere.  (That this formula is the global minimiser of
+    0.5||v - x||^2 + u||v|| over v >= 0 is the block-prox contract of WeightedGroupL2(positive=True), thorough tier.)"""
+    import z3
+    from pv import sym, symrun
+    from pv.sproof import check_contract, zpre
+    symrun.install()
+    BST = symrun.get('skglm.utils.prox_funcs', 'BST')
+    R = sym.SymReal
+    L = sym.lift
+    x = [z3.Real(f'x{i}') for i in range(d)]
+    u = z3.Real('u')
+    nS = z3.Real('norm_xS')
+    sq = sum((z3.If(t > 0, t * t, 0) for t in x), z3.RealVal(0))
+    pre = zpre([u >= 0, nS >= 0, nS * nS == sq])
+
+    def post(out, p):
+        cs = []
+        for i in range(d):
+            xp = z3.If(x[i] > 0, x[i], 0)
+            cs.append((f'[{i}]==max(1-u/||x_S||,0)*max(x_i,0)', [], L(out[i]) == z3.If(nS <= u, 0, (1 - u / nS) * xp)))
+        return cs
+    check_contract(T, 'BST[positive=True]', lambda: BST(np.array([R(t) for t in x], dtype=object), R(u), True), pre, post,
+                   strength='B', replay=dict(fn='contracts.c07:replay_bst_positive', args=dict(d=d)))
+
+
+add_task(['C07', 'C02', 'C04'], 'prox_funcs:BST[positive=True,d=2]', bst_positive_task, strength='B', d=2)
+add_task(['C07', 'C02', 'C04'], 'prox_funcs:BST[positive=True,d=3]', bst_positive_task, strength='B', d=3)
+
+
+def replay_bst_positive(args, model):
+    from skglm.utils.prox_funcs import BST
+    d = args['d']
+    x = np.array([_fl(model, f'x{i}', 0.) for i in range(d)])
+    u = _fl(model, 'u', 0.)
+    try:
+        got = BST(x, u, True)
+    except Exception as ex:      # noqa
+        return dict(confirmed=True, detail=f'BST raised {type(ex).__name__}: {ex}', inputs=dict(x=x.tolist(), u=u))
+    xp = np.maximum(x, 0.)
+    n = np.linalg.norm(xp)
+    exp = np.zeros(d) if n <= u else (1 - u / n) * xp
+    bad = not np.allclose(got, exp, rtol=1e-9, atol=1e-12)
+    return dict(confirmed=bool(bad), detail=f'BST(x, u, positive=True) = {got.tolist()}, documented formula gives {exp.tolist()}',
+                inputs=dict(x=x.tolist(), u=u))
